@@ -188,8 +188,17 @@ def run_module(ctx):
     drive(ctx, module_cases(), exec_module, max(1, int(ctx.params["n"] * ctx.params.get("scale", 1))))
 
 
+def run_pairs(ctx):
+    from vlib.core import enumerate_cases
+
+    cases = qprog.pair_cases()
+    enumerate_cases(ctx, cases[ctx.shard :: ctx.nshards], exec_program,
+                    exhaustive_name="pair programs source -> binary operation: 12 quantized source kinds x 16 operations x 36 companion modes x 6 argument variants")
+
+
 SUBCHECKS = {
     "program": {"run": run_program, "execute": exec_program},
     "config": {"run": run_config, "execute": exec_config},
     "module": {"run": run_module, "execute": exec_module},
+    "pairs": {"run": run_pairs, "execute": exec_program},
 }
